@@ -1,5 +1,6 @@
 import A2Verif.Lemmas.C12FsPascal
 import A2Verif.Lemmas.C12FsDos
+import A2Verif.Lemmas.C12FsProdos
 /-!
 # C12 — the file-system read paths never panic and terminate within their caps (theorems)
 
@@ -592,5 +593,56 @@ example : testImg 16 dos36 = false ∧ cls (statFree (freshDisk dos36)).1 = .pan
   decide +kernel
 
 end Dos
+
+/-! ## ProDOS: total work of `tree` and `glob` -/
+section Prodos
+open A2Verif.Fs.Prodos A2Verif.C12FsId.Prodos
+
+/-- **C12 / ProDOS, bounded time of the recursive directory walks (repaired code).**  With the visit budget, `tree` and
+`glob` enter at most `total_blocks + 1` directories and read at most `100 · (total_blocks + 1)` directory blocks — for
+every image (cycles, shared sub-directories, any bytes) and whatever the nesting-cap branch returns (`capErr`); the
+nesting itself is at most 33 resp. 32 levels by construction (`walkNode` recurses on the levels left). -/
+theorem prodos_walk_budget_bounded (capErr : Bool) (r : Raw) :
+    (tree true capErr r).2.visits ≤ r.units.size + 1 ∧ (tree true capErr r).2.reads ≤ 100 * (r.units.size + 1) ∧
+    (glob true capErr r).2.visits ≤ r.units.size + 1 ∧ (glob true capErr r).2.reads ≤ 100 * (r.units.size + 1) := by
+  have key : ∀ d, (walkNode true capErr r r.units.size d volKeyBlock ⟨0, 0⟩).2.visits ≤ r.units.size + 1 ∧
+      (walkNode true capErr r r.units.size d volKeyBlock ⟨0, 0⟩).2.reads ≤ 100 * (r.units.size + 1) := by
+    intro d
+    obtain ⟨h1, _, h3, _⟩ := walkNode_post capErr r r.units.size d volKeyBlock ⟨0, 0⟩ 0 (Nat.zero_le _) (Nat.le_refl _)
+    refine ⟨h1, ?_⟩
+    have : (walkNode true capErr r r.units.size d volKeyBlock ⟨0, 0⟩).2.reads ≤
+        100 * (walkNode true capErr r r.units.size d volKeyBlock ⟨0, 0⟩).2.visits := by omega
+    exact Nat.le_trans this (Nat.mul_le_mul_left _ h1)
+  unfold tree glob
+  cases imgRead r volKeyBlock with
+  | error e => simp
+  | ok b => exact ⟨(key 33).1, (key 33).2, (key 32).1, (key 32).2⟩
+
+/-! ### ProDOS: concrete directory graphs -/
+
+/-- a sub-directory entry `A` with the given key pointer -/
+def subEntry (ptr : Nat) : Bytes := [0xD1, 65] ++ List.replicate 15 0 ++ [ptr % 256, ptr / 256] ++ List.replicate 20 0
+/-- a directory key block (links 0,0; header zero) whose first entries are sub-directory entries with these pointers -/
+def keyBlockOf (ptrs : List Nat) : Bytes :=
+  let body := List.replicate 43 0 ++ (ptrs.map subEntry).flatten
+  body ++ List.replicate (512 - body.length) 0
+
+/-- **a DAG without any cycle**: blocks 2 → 3 → 4 → 5 → 6, each level entered through two entries of its parent -/
+def dagImg : Raw := { unitLen := 512, units := #[z512, z512, keyBlockOf [3, 3], keyBlockOf [4, 4], keyBlockOf [5, 5], keyBlockOf [6, 6], keyBlockOf []] }
+/-- **a cycle that can be entered twice**: both sub-directory entries of the volume directory point back at it -/
+def cycImg : Raw := { unitLen := 512, units := #[z512, z512, keyBlockOf [2, 2], z512] }
+
+/-- the code as written (no budget), cap = error: on the acyclic 5-directory image the walk enters `31 = 2⁵ − 1`
+directories — one per *path*; 20 levels give a million, 30 a billion (the real `tree` does not return: harness case
+`dag depth=20 fan=2`).  With the budget the same walk stops after `total_blocks + 1 = 8` directories. -/
+example : (tree false true dagImg).2.visits = 31 ∧ cls (tree false true dagImg).1 = .ok ∧
+    (tree true true dagImg).2.visits = 8 ∧ cls (tree true true dagImg).1 = .err := by decide +kernel
+/-- on the cyclic image the cap (6 levels here, 33 in `tree`) ends the walk at the first arrival when its branch is an
+error (6 directories), but only prunes one path when it returns an empty result: `63 = 2⁶ − 1` directories for 6
+levels, `2³³ − 1` for 33 — the seeded change `C12-6`; the budget bounds both -/
+example : (walkNode false true cycImg 4 6 2 ⟨0, 0⟩).2.visits = 6 ∧ (walkNode false false cycImg 4 6 2 ⟨0, 0⟩).2.visits = 63 ∧
+    (walkNode true false cycImg 4 6 2 ⟨0, 0⟩).2.visits = 5 := by decide +kernel
+
+end Prodos
 
 end A2Verif.C12Fs
